@@ -208,11 +208,13 @@ func (s *Datastore) read(ctx context.Context, store string, filter storage.ReadF
 			})
 		}
 		if userObjectID != "" {
+			// a complete user: the relation is part of its identity ('' for a plain object),
+			// otherwise `group:eng` would also match `group:eng#member`
 			sb = sb.Where(sq.Eq{
 				"user_object_id": userObjectID,
+				"user_relation":  userRelation,
 			})
-		}
-		if userRelation != "" {
+		} else if userRelation != "" {
 			sb = sb.Where(sq.Eq{
 				"user_relation": userRelation,
 			})
@@ -817,12 +819,11 @@ func (s *Datastore) ReadStartingWithUser(
 	var targetUsersArg sq.Or
 	for _, u := range filter.UserFilter {
 		userObjectType, userObjectID, userRelation := tupleUtils.ToUserPartsFromObjectRelation(u)
+		// the relation is part of the user's identity ('' for a plain object)
 		targetUser := sq.Eq{
 			"user_object_type": userObjectType,
 			"user_object_id":   userObjectID,
-		}
-		if userRelation != "" {
-			targetUser["user_relation"] = userRelation
+			"user_relation":    userRelation,
 		}
 		targetUsersArg = append(targetUsersArg, targetUser)
 	}
